@@ -434,6 +434,11 @@ impl Allocator for Arena {
 
   #[inline]
   fn increase_discarded(&self, size: u32) {
+    // the header of a read-only arena lives in a read-only mapping
+    if self.ro {
+      return;
+    }
+
     #[cfg(feature = "tracing")]
     tracing::debug!("discard {size} bytes");
 
@@ -452,6 +457,11 @@ impl Allocator for Arena {
 
   #[inline]
   fn set_minimum_segment_size(&self, size: u32) {
+    // the header of a read-only arena lives in a read-only mapping
+    if self.ro {
+      return;
+    }
+
     self
       .header()
       .min_segment_size
